@@ -141,7 +141,7 @@ static uint64_t rng() { rng_state ^= rng_state << 13; rng_state ^= rng_state >> 
 static long solo_at = -1; static int solo_thread = -1; static bool solo_active = false; static long solo_start_step = 0;
 static int solo_wakes = 0;
 // per-thread op info
-static const char* cur_op[16]; static bool in_op[16];
+static const char* cur_op[16]; static bool in_op[16]; static bool op_blocking[16];
 
 // spin detection
 struct SpinEnt { const void* addr; uint64_t val; int cnt; };
@@ -274,7 +274,7 @@ static void maybe_solo(int me) {
     int t = solo_thread;
     refresh_parked();
     if (t >= nthreads) finish_child("solo_na", 0);
-    if (status[t] == DONE || status[t] == BLOCKED) finish_child("solo_na", 0);
+    if (status[t] == DONE || status[t] == BLOCKED || !in_op[t] || op_blocking[t]) finish_child("solo_na", 0);
     if (status[t] == PARKED) { status[t] = RUNNABLE; spin_n[t] = 0; }
     solo_active = true; solo_start_step = steps;
     (void)me;
@@ -326,9 +326,10 @@ void ev(const char* e, const char* op, long a, long b, long r, long v) {
   a = clampv(a); b = clampv(b); r = clampv(r); v = clampv(v);
   logf("{\"e\":\"%s\",\"t\":%d,\"op\":\"%s\",\"a\":%ld,\"b\":%ld,\"r\":%ld,\"v\":%ld}\n", e, tid(), op, a, b, r, v);
 }
+void call_blocking(const char* op, long a, long b) { call(op, a, b); op_blocking[tid()] = true; }
 void call(const char* op, long a, long b) {
   int t = tid();
-  { cur_op[t] = op; in_op[t] = true; }
+  { cur_op[t] = op; in_op[t] = true; op_blocking[t] = false; }
   ev("call", op, a, b, 0, 0);
 }
 void ret(long r, long v) {
@@ -693,7 +694,7 @@ struct Stats {
 int explore_main(int argc, char** argv, const std::function<Scenario(const std::string&)>& make) {
   std::vector<std::string> progs; std::string out, modes = "dfs", replay_file;
   long max_exec = 20000, runs = 1000, seed = 1; int shard_i = 0, shard_n = 1; int alarm_s = 10; long solo_every = 0;
-  long max_distinct = 1000000;
+  long max_distinct = 1000000; long r_solo_at = -1; int r_solo_thread = -1;
   for (int i = 1; i < argc; i++) {
     std::string a = argv[i];
     auto next = [&]() -> std::string { if (i + 1 >= argc) { fprintf(stderr, "missing value for %s\n", a.c_str()); exit(2); } return argv[++i]; };
@@ -712,6 +713,8 @@ int explore_main(int argc, char** argv, const std::function<Scenario(const std::
     else if (a == "--steps") log_steps = true;
     else if (a == "--alarm") alarm_s = atoi(next().c_str());
     else if (a == "--solo-every") solo_every = atol(next().c_str());
+    else if (a == "--solo-at") r_solo_at = atol(next().c_str());
+    else if (a == "--solo-thread") r_solo_thread = atoi(next().c_str());
     else if (a == "--weak") weakW = atoi(next().c_str());
     else { fprintf(stderr, "xvrt: unknown option %s\n", a.c_str()); return 2; }
   }
@@ -741,6 +744,7 @@ int explore_main(int argc, char** argv, const std::function<Scenario(const std::
     ChildCtl c; std::istringstream l(l2); std::string tag; l >> tag; std::string tok;
     if (tag == "#DEC") { c.mode = M_DFS; while (l >> tok) { int ch = 0, n = 0; sscanf(tok.c_str(), "%d/%d", &ch, &n); c.prefix.push_back({ch, n}); } }
     else { c.mode = M_REPLAY_TIDS; while (l >> tok) { int t = 0; long k = 1; sscanf(tok.c_str(), "%d*%ld", &t, &k); for (long j = 0; j < k; j++) c.tids.push_back(t); } }
+    c.solo_at = r_solo_at; c.solo_thread = r_solo_thread;
     ChildResult r = run_child(make, prog, c, alarm_s);
     emit(prog, 0, r);
     if (r.diverged) S.outcomes["diverged"]++;
